@@ -28,6 +28,8 @@ from props import c02_oracle as orc
 from props import c02_cse
 
 EXTRACTORS = ["Cse"]
+# further property file of C02: the model of the whole of stage2/cse.py preserves the solution set
+EXTRA_PROPS = ["C02Cse"]
 ANON = ".anonymous_ellipsis_axis"
 
 
